@@ -54,6 +54,9 @@ func init() {
 			for _, u := range enum.SeqUnits("bytes", "utf8", len(enum.ByteAlphabets["utf8"]), l+1, 2) {
 				us = append(us, core.Unit{Name: u})
 			}
+			for _, u := range enum.SeqUnits("bytes", "punct", len(enum.ByteAlphabets["punct"]), 3, 1) {
+				us = append(us, core.Unit{Name: u})
+			}
 			if tier != "thorough" {
 				// one small focused alphabet in the quick tier too: fielded groups with numeric field names
 				for _, u := range enum.SeqUnits("tok", "nf", len(enum.Alphabets["nf"]), 7, 2) {
